@@ -3,15 +3,66 @@
 import json, os
 VERIF = os.path.dirname(os.path.dirname(os.path.abspath(__file__)))
 
+TB = ("Trusted: Verus 0.2026.09.13 / Z3; the extractor's syntactic normalisations N1-N7 (self-checked every run); assume_specification for "
+      "iN::is_negative/is_positive/abs/unsigned_abs/rem_euclid/div_euclid, Result::unwrap_or_else, i64::from(bool); message strings dropped "
+      "(format!/panic! text); derives (Default/PartialEq/Ord on Date) by their documented meaning; ")
 CLAIMED = {
  'C01': dict(
     text="Verus proves, for all 2^32 day numbers and all (i32,u32,u32) triples, the contracts of the real days_to_date, date_to_days, "
-         "validate_date, year_month_to_doy, leap_years, is_leap_year (text extracted from /repo on every run) against a calendar spec "
-         "written from the property: read-back is a valid date whose day number is the input, construction returns exactly that day "
-         "number iff the triple is a valid in-range date and OutOfRange otherwise; bijection/consecutiveness follow as lemmas.",
-    note="Trusted: Verus/Z3, the extractor's syntactic normalisations (self-checked), assume_specification for i32::is_negative/"
-         "is_positive/abs, message strings dropped. Date/DateTime wrappers from_ymd/as_ymd are one-line forwards under contract in unit api.",
-    ref="5 C01"),
+         "validate_date, year_month_to_doy, leap_years, is_leap_year, Date/DateTime::from_ymd/as_ymd/year/month/day (text extracted from /repo "
+         "on every run) against a calendar spec written from the property: read-back equals date_of(n), the calendar defined by stepping day by "
+         "day from 0001-01-01 (so consecutive days are consecutive dates), it is a valid date whose day number is the input, and construction "
+         "returns exactly that day number iff the triple is a valid in-range date and OutOfRange otherwise; injectivity is lemma_civil_unique.",
+    note=TB + "nothing else.", ref="5 C01"),
+ 'C02': dict(
+    text="Verus proves days_to_wday == (d+1) mod 7 (0=Sunday, day 719162 is Thursday) for all i32 days, days_to_doy == before_month+day of "
+         "date_of(d), validate_doy / year_doy_to_days / set_day_of_year accept exactly 1..=year_len within the documented range and land on "
+         "before_year(y)+n-1, and the Date/DateTime getters read those of the local day. NOT covered: the ISO week formula days_to_wyear and "
+         "the quarter expression (only reachable through formatting).",
+    note=TB + "ISO week-of-year (days_to_wyear) and the w/q/e/D format arms are outside this check.", ref="5 C02"),
+ 'C03': dict(
+    text="Verus proves secs_to_days_nanos / days_nanos_to_secs / from_seconds / as_seconds / from_timestamp / timestamp (Date and DateTime) "
+         "against d*86400 + n/1e9 == s for all i64 seconds: round trip, timestamp 0 == day 719162 00:00, Ok iff in range; from_timestamp in two "
+         "variants (A: in range => no panic and right value; B: whenever it returns the argument was in range). eq/cmp of DateTime are "
+         "equality/order of days*NPD+nanos, independent of the offset field; agreement with *_since follows from C06's trunc_div contracts.",
+    note=TB + "variant B of DateTime::from_timestamp assumes timestamp + 719162*86400 does not overflow i64 (beyond that a debug build panics on the addition, a release build wraps to an out-of-range value and panics).", ref="5 C03"),
+ 'C04': dict(
+    text="Verus proves for every add_/sub_ of days..nanoseconds on DateTime and Date, and the +/- operators with Duration and Time, in two "
+         "variants from the same extracted text: A (panic! has precondition false): representable target => no panic, instant(r) == "
+         "instant(self) +/- count*unit exactly, offset unchanged, nanoseconds < one day; B (panic diverges): whenever the call returns, the "
+         "target was representable and the value is that one. All u32 counts, all i32 days, all Durations; overflow and truncating casts are obligations.",
+    note=TB + "std::time::Duration as an uninterpreted nanosecond count with trusted accessors.", ref="5 C04"),
+ 'C05': dict(
+    text="Verus proves shift_months (the body of add_/sub_months/years) against shifted(date_of(d), N): month index astro(y)*12+m-1+N split by "
+         "floor division, label_of skips year 0, day reduced to mdays of the target; Ok iff that date is in range, for all days and all u32 N; "
+         "the Date/DateTime wrappers in variants A/B (panic exactly when out of range), time of day and offset unchanged.",
+    note=TB + "nothing else.", ref="5 C05"),
+ 'C06': dict(
+    text="Verus proves every *_since of DateTime, Time and Date equals trunc_div(instant(a)-instant(b), unit) (nanos: exact difference) for all "
+         "well-formed pairs, through exact contracts on days_nanos_to_*, nanos_to_sub*_nanos and since_i32/i64/i128 plus lemma_trunc_since; "
+         "duration_between is the absolute difference for all three types. Antisymmetry and inverse-of-add follow from the closed form.",
+    note=TB + "Duration accessors/constructors and Duration + Duration trusted; std::cmp::min/max on &DateTime modelled over the verified cmp.", ref="5 C06"),
+ 'C08': dict(
+    text="Verus proves for the whole Time API: constructors accept exactly values inside the day and produce nanoseconds < 86400e9; every "
+         "add_/sub_ (all u32 counts), Time+Time, Time-Time, Time+/-Duration, From<DateTime> return (t +/- amount) mod 24 h with the offset "
+         "kept; eq/cmp compare nanoseconds, so equal fields under offset 0 means equal values.",
+    note=TB + "Duration trusted as in C04.", ref="5 C08"),
+ 'C09': dict(
+    text="Verus proves the 10 setters and 9 clear_until_* on DateTime, Time and Date over the LOCAL instant l = instant + offset*1e9 for every "
+         "Fixed offset in (-86400, 86400): Ok iff the value is in range (date setters: iff the target date exists, is representable and its UTC "
+         "instant is representable), the set field reads v, the local day and every coarser field and finer remainder are unchanged; clears "
+         "zero the unit and everything finer in local time.",
+    note=TB + "Preconditions: DateTime operations need the instant at least 2 days inside the range ends (clear_until_month/day: 368 days above the lower end, where the first of the month/year is not representable and the call panics); Offset::Local is an arbitrary value per call, so field-level clauses are stated for Fixed offsets.", ref="5 C09"),
+ 'C10': dict(
+    text="Verus proves Offset::default, add/remove_offset_to/from_nanos/dn, set_offset (instant unchanged, offset stored; panics exactly when the "
+         "local instant to the second is unrepresentable: variants A/B), as_offset (instant moves by minus the offset), get_offset, and every "
+         "getter of DateTime and Time == the field of the instant shifted by the offset, for all Fixed offsets in range.",
+    note=TB + "Offset::resolve is trusted (Fixed(s) -> s; Local -> arbitrary value in range per call); Offset::from_seconds/from_hms/resolve_hms are under C15's unit; formatted fields are outside (C11).", ref="5 C10"),
+ 'C15': dict(
+    text="Verus proves Ok iff valid and Err(OutOfRange) with value == offending argument outside [min,max] for validate_date/doy/time, "
+         "time_to_day_seconds, tm::set_*, Time::from_hms/from_seconds/from_nanos, DateTime/Date::from_ymd(hms), all set_* on the three types, "
+         "over the full u32/i32 domains (overflow of hour*3600+... is an obligation), on the real OutOfRange struct and create_*_oor.",
+    note=TB + "the Display text of the error is not covered; where custom is Some no range is stated.", ref="5 C15"),
 }
 
 NOT_APPLICABLE = {
